@@ -124,6 +124,8 @@ def gen_field(rng, kind):
             return 'DT:' + rng.choice(DT_RAW)
         if t == 'PI':
             return 'PI:' + rng.choice(ATOI_RAW)
+        if t in ('FO', 'KS') and rng.random() < 0.5:
+            return t + ':' + rng.choice(['*', '*', 'TACG', 'ACMGRSVTWYHKDBN'])
         return t + ':' + rng.choice(SMALL)
     if kind == 'PG':
         t = rng.choice(['ID', 'ID', 'ID', 'PN', 'CL', 'PP', 'VN', 'XA', 'ab'])
@@ -189,6 +191,10 @@ def gen_history(rng, maxops):
         d = dict(op='newrg', name=rng.choice(NAMES), dt=rng.choice(API_DATES), pi=rng.choice([0, 0, 300, -1]))
         for k in ('cn', 'ds', 'lb', 'pg', 'pl', 'pu', 'sm', 'fo', 'ks'):
             d[k] = rng.choice(SMALL)
+        if rng.random() < 0.3:
+            # values the specification singles out: FO is "*" or nucleotides, KS a base string
+            d['fo'] = rng.choice(['*', '*', 'ACMGRSVTWYHKDBN', 'TACG'])
+            d['ks'] = rng.choice(['', 'TCAG', '*'])
         return d
 
     def newpg():
